@@ -259,6 +259,7 @@ def gen_case(ctx, rng, p_invalid=0.0):
         for node in T.walk(spec):
             if node["k"] == "F" and rng.random() < 0.3:
                 node["nod"] = True
+                ctx.count("free_texts_without_discriminator")
     pkg = T.abbreviate_spec(spec, rng) if rng.random() < 0.35 else {}
     return {"spec": spec, "asg": draw_assignment(rng, POOLS.rc), "soll": rng.random() < 0.5, "schedule_seed": rng.randrange(1 << 30), "pkg": pkg}
 
